@@ -10,6 +10,13 @@ import semcheck
 PRELUDE = 'func id(a string) string {\n\treturn a\n}\n'
 
 
+def valid_file_name(s):
+    """the string can be the name of a file in the working directory (the value as the PATH of write / exists / read: an option
+    look-alike such as -n or --help is a name like any other; round 7: C08-9, read through `cat` without `--`)"""
+    b_ = s.encode()
+    return 0 < len(b_) <= 100 and b"/" not in b_ and b"\x00" not in b_ and b"\n" not in b_ and s not in (".", "..") and s != "in.txt" and s != "f.txt"
+
+
 def paths(S, s, runtime):
     """list of (name, source lines, expected output lines (list of str, joined by \\n + final \\n))"""
     chars = [c for c in s]
@@ -28,7 +35,7 @@ def paths(S, s, runtime):
         ("string-range", ["v5 := %s" % S, "for i5, c5 := range v5 {", '\tprint("[" + c5 + "]")', "}"], ["[" + c + "]" for c in chars]),
         ("write-read", ['write("f.txt", %s)' % S, 'print(read("f.txt"))'], [s.rstrip("\n")] if s.endswith("\n") else [s]),
         ("multi-print", ['print("a", %s, "b")' % S], ["a " + s + " b"]),
-    ]
+    ] + ([("file-name", ['write(%s, "c8")' % S, 'print(exists(%s), read(%s))' % (S, S)], ["1 c8"])] if valid_file_name(s) else [])
 
 
 def build(s, runtime, only=None, exclude=()):
@@ -185,4 +192,6 @@ def classify(s, path, origin):
     """regions of the listed known findings"""
     if origin == "literal" and ("$" in s or "`" in s):
         return "literal-dollar-backquote-expanded"
+    if path == "file-name" and s == "-":
+        return "read-dash-is-standard-input"
     return None
